@@ -114,7 +114,7 @@ def check_case(ctx, g, model=None, thr=None):
         import math as _m
         digits = round(-_m.log10(t))           # the documented precision for a threshold 10^-k, independent of the code
         model.add("reach", dict(wire.game_payload(g, thr=t), prune=False, digits=digits),
-                  expect=r_np, inp={"game": gen.desc(g)}, suite="corr.reach")
+                  expect=r_np, inp={"game": gen.desc(g)}, suite="corr.reach", cmp=wire.staged(ctx, {"reachstrat"}, ("outcome", "probs")))
 
 
 def tie_game(rng):
